@@ -489,7 +489,7 @@ def slice_calls(fn):
 
 
 # ------------------------------------------------------------------------------------------ driver
-def normalize_tree(raw_tree, modname):
+def normalize_tree(raw_tree, modname, polymorphic=frozenset()):
     base = baseline().get(modname)
     if base is None:
         return raw_tree, []
@@ -511,7 +511,8 @@ def normalize_tree(raw_tree, modname):
     raw_tree.parent = None
     fns = _functions(tree)
     log = []
-    new_fns = {q: f for q, f in fns.items() if q not in known_fn}
+    # (a new METHOD that another class of the package defines too is not a helper: `self.m(..)` may reach the override)
+    new_fns = {q: f for q, f in fns.items() if q not in known_fn and not ("." in q and q.rsplit(".", 1)[1] in polymorphic)}
     mod_helpers = {q: f for q, f in new_fns.items() if "." not in q}
     for q, f in fns.items():
         if q in new_fns:
